@@ -488,15 +488,15 @@ fn compile_all() -> Progs {
     let asm = assembler();
     let mut hint = BTreeMap::new();
     for hi in HINT_INSTRS {
-        hint.insert(hi, asm.compile(hi.src()).expect("family program must assemble"));
+        hint.insert(hi, asm.compile(hi.src()).expect("SUBJECT: family program must assemble"));
     }
     let mut mtree = BTreeMap::new();
     for (k, s) in MTREE_SRCS {
-        mtree.insert(k, asm.compile(s).expect("family program must assemble"));
+        mtree.insert(k, asm.compile(s).expect("SUBJECT: family program must assemble"));
     }
     let mut advice = BTreeMap::new();
     for (k, s) in advice_srcs() {
-        advice.insert(k, asm.compile(&s).expect("family program must assemble"));
+        advice.insert(k, asm.compile(&s).expect("SUBJECT: family program must assemble"));
     }
     Progs { hint, mtree, advice }
 }
